@@ -162,8 +162,12 @@ def mk_case(rng, n, shape, ss, strategy, missing_mode):
     rng.shuffle(contents)
     rng.shuffle(skipped)
     rng.shuffle(dirs)
-    return {"contents": contents, "skipped": skipped, "dirs": dirs, "missing": sorted(f(x) for x in miss),
+    case = {"contents": contents, "skipped": skipped, "dirs": dirs, "missing": sorted(f(x) for x in miss),
             "ss": ss, "sampler": strategy}
+    r = rng.random()
+    if r < 0.3:      # archives answering with a one-shot iterable (the interface says Iterable)
+        case["answer"] = "generator" if r < 0.15 else "iterator"
+    return case
 
 
 _PENDING = {}     # hashseed -> cases generated for a subprocess run (filled by gen)
@@ -336,7 +340,14 @@ def run_impl(c):
             if len(queries) > 3 * n + 6:
                 raise NonTermination()
             queries.append({"kind": kind, "ids": sorted(back.get(b, -1) for b in ids), "events_before": len(events)})
-            return [b for b in ids if back.get(b, -1) in missing]
+            ans = [b for b in ids if back.get(b, -1) in missing]
+            # the interface types the answer as Iterable[Sha1Git]: a list, a one-shot generator or an iterator
+            shape = c.get("answer", "list")
+            if shape == "generator":
+                return (b for b in ans)
+            if shape == "iterator":
+                return iter(tuple(ans))
+            return ans
         return method
 
     class Archive:
@@ -556,3 +567,46 @@ def pre_checks(ctx):
 ANCHORS = [('swh/model/discovery.py', 'BaseDiscoveryGraph.*'),
            ('swh/model/discovery.py', 'RandomDirSamplingDiscoveryGraph.get_sample'),
            ('swh/model/discovery.py', 'filter_known_objects')]
+
+
+def coq_cases(cases):
+    """filter_known_objects with the deterministic oracles (FIFO pop + first-k sampler, LIFO pop + last-k sampler) evaluated
+    by vm_compute inside Coq vs the extracted driver: the three result lists, the callback events and the archive queries
+    (extraction cross-check)"""
+    from . import core
+    def ids(l):
+        return "[" + "; ".join("%d" % i for i in l) + "]%N"
+    def coq_case(c):
+        return "(%d%%N, %s, %s, [%s], %s)" % (c["ss"], ids(c["contents"]), ids(c["skipped"]),
+                                              "; ".join("(%d%%N, %s)" % (i, ids(cs)) for i, cs in c["dirs"]), ids(c["missing"]))
+    src = ("From Coq Require Import List NArith.\nFrom SWH.model Require Import Discovery.\nImport ListNotations.\n" + core.COQ_CHECKSUM +
+           "\nDefinition res (r : disc_result) : list N := match r with\n"
+           " | DiscOk c s d st => [10%N] ++ c ++ [100000%N] ++ s ++ [100001%N] ++ d ++ [100002%N] ++ "
+           "concat (map (fun e : N * bool => [fst e; if snd e then 1%N else 0%N]) (events st)) ++ [100003%N] ++ "
+           "concat (map (fun q : N * list N => fst q :: snd q ++ [100004%N]) (queries st))\n"
+           " | DiscOutOfFuel => [1%N] | DiscKeyError => [2%N] | DiscBadSample => [3%N] end.\n"
+           "Definition cases : list (N * list N * list N * list dirent * list N) := [" + ";\n ".join(coq_case(c) for c in cases) + "].\n"
+           "Eval vm_compute in map (fun x => match x with (ss, c, s, d, m) => cksum ("
+           "res (filter_known_objects ss (sampler_first ss) pick_fifo (fun x => memN x m) c s d) ++ "
+           "res (filter_known_objects ss (sampler_last ss) pick_lifo (fun x => memN x m) c s d)) end) cases.\n")
+    reqs = []
+    for c in cases:
+        args = "%s %s %s %s" % (enc_ids(c["contents"]), enc_ids(c["skipped"]), enc_dirs(c["dirs"]), enc_ids(c["missing"]))
+        reqs += ["run %d fifo first %s ." % (c["ss"], args), "run %d lifo last %s ." % (c["ss"], args)]
+    resp = core.run_driver(ID, reqs)
+    def res(line):
+        if not line.startswith("ok "):
+            return [{"err fuel": 1, "err keyerror": 2, "err badsample": 3}.get(line, 4)]
+        _, rc, rs, rd, ev, qs = line.split(" ")
+        l = [10] + dec_ids(rc) + [100000] + dec_ids(rs) + [100001] + dec_ids(rd) + [100002]
+        if ev != ".":
+            for e in ev.split(","):
+                l += [int(e[:-1]), 1 if e[-1] == "+" else 0]
+        l.append(100003)
+        if qs != ".":
+            for q in qs.split("/"):
+                k, qi = q.split(":")
+                l += [int(k)] + dec_ids(qi) + [100004]
+        return l
+    exp = [core.py_cksum(res(resp[2 * i]) + res(resp[2 * i + 1])) for i in range(len(cases))]
+    return src, exp
